@@ -408,7 +408,15 @@ def check_C08(run):
 
 def make_requests(run, pool, frac):
     rng = run.rng
-    chosen = [e for e in pool if rng.random() < frac]
+    # stratified by provenance class: a fraction of every class, and never fewer than a handful of the rare ones
+    by = {}
+    for e in pool:
+        by.setdefault(e["cls"], []).append(e)
+    chosen = []
+    for cls in sorted(by):
+        es = by[cls]
+        k = max(int(round(frac * len(es))), min(len(es), 6))
+        chosen += rng.sample(es, k)
     # clocks around and beyond the fifty-move threshold, large full-move numbers
     bumped = []
     for e in chosen:
@@ -472,6 +480,7 @@ def check_C02(run):
     impl, _ = vlib.run_impl_par(reqs + plays)
     model = vlib.run_model_par(reqs + plays)
     nv = 0
+    nprem = 0
     todo = []
     for i, ((e, m), a, b) in enumerate(zip(meta, impl, model)):
         cls = move_class(e["fen"], m, b)
@@ -485,6 +494,13 @@ def check_C02(run):
             continue
         a_core = a.split(" spec=")[0]
         b_core = b.split(" spec=")[0]
+        if m != "null":
+            nprem += 1
+            if db.get("prem") != "1":
+                nv += 1
+                if nv <= 25:
+                    run.violation("theorem-premise", "refines_b (the hypothesis of C02_makemove_refines) is false on a legal move: "
+                                  "the theorem does not cover it", {"fen": e["fen"], "move": m, "class": cls, "model": b}, found_input=False)
         if a_core != b_core:
             todo.append((i, e, m, a, b, spec))
         elif spec != mabs or db.get("valid") != "1" or db.get("inD") != "1":
@@ -531,8 +547,11 @@ def check_C02(run):
     run.cov["traces_validated_against_impl"] = len(reqs) + len(plays)
     run.sample({"request": reqs[0], "implementation": impl[0][:400]})
     run.sample({"request": plays[0][:300], "implementation": impl[off][:300]})
-    run.cov["explanation"] = ("PARTIAL proof (closed lemmas under 'theorems'); the refinement make-move = Rules.apply is checked by running "
-                              "model, implementation and specification on every legal move of sampled positions and along play-outs")
+    run.cov["refines_b_true_on_legal_moves"] = nprem
+    run.cov["explanation"] = ("PARTIAL proof: makemove = Rules.apply proved for every move (castling included) under the executable test refines_b, "
+                              f"which was evaluated (true) on all {nprem} legal moves of this run; that every legal move of a position in D passes "
+                              "it, and in_D preservation, rest on running model, implementation and specification on every legal move of sampled "
+                              "positions and along play-outs")
 
 
 KEYS_TURN = None
